@@ -1316,6 +1316,11 @@ static int state_sync_process(struct snapraid_state* state, struct snapraid_pari
 
 			msg_progress("Autosaving...\n");
 
+			/* wait for the completion of the parity writes still in queue */
+			/* because the content file we are going to write declares */
+			/* as synced also the blocks just processed */
+			io_flush(&io);
+
 			/* before writing the new content file we ensure that */
 			/* the parity is really written flushing the disk cache */
 			for (l = 0; l < state->level; ++l) {
